@@ -311,14 +311,22 @@ def _postrand(vsc, spec, mon):
             self.rl = vsc.rand_list_t(mk(w), sz=2)
             self.rz = vsc.randsz_list_t(mk(w))
             self.nl = vsc.list_t(mk(w), sz=1)
+            self.k = mk(w)           # not random: enters the problem as a constant of the solver
+            self.kr = mkr(w)         # random by declaration, rand_mode switched off below
+            self.q = mkr(w)
 
         @vsc.constraint
         def c(self):
             self.rz.size == 1
+            # k and kr are named by constraints, so their values pass through the solver as constants
+            (self.q == self.k) | (self.q != self.k)
+            (self.q == self.kr) | (self.q != self.kr)
 
     o = C()
     with vsc.raw_mode():
         fr, frl, frz, fnl = o.r, o.rl, o.rz, o.nl
+        fk, fkr = o.k, o.kr
+        o.kr.rand_mode = False
     lo, hi = (-(1 << (w - 1)), (1 << (w - 1)) - 1) if s else (0, (1 << w) - 1)
     if spec["mode"] == "exhaustive":
         vals = list(range(lo, hi + 1))
@@ -331,6 +339,8 @@ def _postrand(vsc, spec, mon):
             mon.nontrivial += 1
         v2 = vals[(vals.index(v) * 7 + 3) % len(vals)]
         fnl[0] = v2
+        o.k = v
+        o.kr = v2
         with o.randomize_with() as it:
             it.r == lit(v)
             it.rl[0] == lit(v)
@@ -339,6 +349,10 @@ def _postrand(vsc, spec, mon):
         mon.check("solver r=%s attr" % v, o.r, v, w=w, signed=s)
         mon.check("solver r=%s get_val" % v, fr.get_val(), v, w=w, signed=s)
         mon.check("solver r=%s .val" % v, fr.val, v, w=w, signed=s)
+        mon.check("constant k=%s attr after the call" % v, o.k, v, w=w, signed=s)
+        mon.check("constant k=%s get_val after the call" % v, fk.get_val(), v, w=w, signed=s)
+        mon.check("rand_mode-off kr=%s attr after the call" % v2, o.kr, v2, w=w, signed=s)
+        mon.check("rand_mode-off kr=%s get_val after the call" % v2, fkr.get_val(), v2, w=w, signed=s)
         for name, l, exp in (("rl", frl, [v, v2]), ("rz", frz, [v]), ("nl", fnl, [v2])):
             it_ = list(l)
             mon.check("solver %s len" % name, len(l), len(exp))
